@@ -611,6 +611,9 @@ func solveOne(id string, o *Obl, workDir string, timeoutMs int, all bool, mu *sy
 
 var profBuild, profPre, profSolve int64
 
+// loadFactor scales the fast-path time limits when the machine is busy (set by CheckProperty).
+var loadFactor = 1.0
+
 type fastEntry struct {
 	once sync.Once
 	res  *solveResult
@@ -644,7 +647,7 @@ func raceFast(f string) *solveResult {
 		out  string
 		ms   int64
 	}
-	cmds := [][]string{{"z3-new", "-T:2", f}, {"cvc5", "--full-saturate-quant", "--tlimit=6000", f}}
+	cmds := [][]string{{"z3-new", fmt.Sprintf("-T:%d", int(2*loadFactor+0.5)), f}, {"cvc5", "--full-saturate-quant", fmt.Sprintf("--tlimit=%d", int(6000*loadFactor)), f}}
 	ch := make(chan ans, len(cmds))
 	for _, c := range cmds {
 		go func(c []string) {
